@@ -44,6 +44,9 @@ func (a *AbsStr) AbsLen() int {
 	if strings.HasPrefix(a.Ctor, "bech32:") {
 		return len(a.Hrp) + 1 + len(a.Args) + 6
 	}
+	if a.Ctor == "hex" {
+		return 2 * len(a.Args)
+	}
 	return -1
 }
 
